@@ -219,6 +219,32 @@ def install_update_raise(k):
     return state
 
 
+def install_fixer_probe():
+    """Harness-side probe (no repo change): report every rule whose fix() actually fixed something
+    (had_violations) through the history, so that an oracle can tell *who* caused a write-back."""
+    import vsg.rule
+
+    real = vsg.rule.Rule.fix
+    if getattr(real, "_vsim_probe", False):
+        return
+
+    def fix(self, oFile, dFixOnly=None):
+        before = self.had_violations
+        r = real(self, oFile, dFixOnly)
+        if self.had_violations and not before:
+            c = seams.CTX
+            if c is not None:
+                c.depth += 1
+                try:
+                    c.ctl.out("sim", "fixer %s\n" % self.unique_id)
+                finally:
+                    c.depth -= 1
+        return r
+
+    fix._vsim_probe = True
+    vsg.rule.Rule.fix = fix
+
+
 def prepare_process(desc, ctx, who):
     """Common per-process set-up (owner and workers)."""
     seed = H(desc["run_seed"], "names", who)
@@ -271,6 +297,8 @@ def run_cli(desc, root, rec):
     if desc.get("raise_at_update"):
         upd = install_update_raise(int(desc["raise_at_update"]))
 
+    if desc.get("probe_fixers"):
+        install_fixer_probe()
     tracer = None
     if desc.get("interrupt_line"):
         from vsim import linetrace
